@@ -79,7 +79,21 @@ StepN(M, st) ==
           IN (IF ss = {} THEN {"answer_to_unknown_request_delivered"} ELSE {}) \cup
              (IF ss # {} /\ \A y \in ss : sent1[y].a # out[j].a THEN {"answer_delivered_to_other_application"} ELSE {})
           : j \in {x \in 1..Len(out) : out[x].ev = "app_ans"}}
-      sigs == vSend \cup vRes \cup vWake \cup vAns
+      \* a late or repeated answer to a request whose sender has already returned goes to that application's handler
+      vLate == UNION {
+          LET m == st.act.ms[x]
+              ds == {y \in 1..Len(M0.sent) : M0.sent[y].done /\ M0.sent[y].hbh = m.hbh /\ M0.sent[y].e2e = m.e2e /\ M0.sent[y].c = st.act.c}
+              ws == {y \in 1..Len(sent1) : ~sent1[y].done /\ sent1[y].hbh = m.hbh}
+          IN IF ds # {} /\ ws = {} /\ Cardinality(fedAns) = 1 /\ Len(st.act.ms) = 1 /\ ~IsClosed(st.snap, st.act.c) /\
+                (\E p \in MPeers : M0.prev.peers[p].conn = st.act.c /\ M0.prev.peers[p].st \in READY) /\
+                ~\E j \in 1..Len(out) : out[j].ev = "app_ans" /\ out[j].m.hbh = m.hbh /\ out[j].m.e2e = m.e2e /\ \E y \in ds : M0.sent[y].a = out[j].a
+             THEN {"late_answer_not_passed_to_senders_handler"} ELSE {}
+          : x \in fedAns}
+      \* schedule scenarios: the peer answered the instant the request was on the wire (time does not advance within the step)
+      vFast == IF isSend /\ (\E j \in 1..Len(out) : out[j].ev = "auto_answer") /\
+                  ~\E j \in res(st.act.k) : out[j].r = "answer"
+               THEN {"waiting_sender_did_not_get_its_answer:answered_at_once"} ELSE {}
+      sigs == vSend \cup vRes \cup vWake \cup vAns \cup vLate \cup vFast
       doneKs == {out[j].k : j \in {x \in 1..Len(out) : out[x].ev = "req_result"}}
       sent2 == [y \in 1..Len(sent1) |-> IF sent1[y].k \in doneKs THEN [sent1[y] EXCEPT !.done = TRUE] ELSE sent1[y]]
       outst1 == [c \in CIds |-> (M0.outst[c] \cup {sent1[y].hbh : y \in {z \in 1..Len(sent1) : sent1[z].c = c /\ z > Len(M0.sent)}})
